@@ -123,6 +123,7 @@ impl<'a> World<'a> {
             age: 400,
             weak_rng: [0, 0],
             profile: "stale-incarnation".into(),
+            stateless_accept: false,
         };
         let mut w = World::new(NetProp::C03, &cfg);
         w.wirelog = Some([Vec::new(), Vec::new()]);
